@@ -63,6 +63,20 @@ def run(ctx):
     n2, r2, s2 = linetrace.validate(ctx, "Trace_Flush", TR, p2, "tr_frag",
                                     key_frag, "fragmented handshake log",
                                     segment_op="hs")
+    # the same accounting one level up: NoiseConn.Write (one record, and the
+    # chunked path above 65535 bytes) interrupted by write deadlines at every
+    # kind of split point; Write's count plus the counts of the Flush calls
+    # that follow must add up to what was accepted, nothing is emitted twice
+    import c15
+    rc, o = run_driver(ctx, binary, "TestC15WriteTimeout", out, timeout=900)
+    if rc != 0:
+        raise Infra("write-timeout driver failed:\n" + o[-2000:])
+    p3 = os.path.join(out, "c15wt.ndjson")
+    n3, r3, s3 = linetrace.validate(
+        ctx, "Trace_Stream", c15.TR, p3, "tr_stream_wt",
+        lambda ln: "flush:tcp-write-timeout:%s" % ln.get("op"),
+        "stream call trace (write timeouts)", segment_op="new")
+    n2, r2 = n2 + n3, r2 + r3
     l1 = [json.loads(x) for x in open(p1).read().splitlines()]
     l2 = [json.loads(x) for x in open(p2).read().splitlines()]
     recs = [x for x in l1 if x["op"] == "flushEnd"]
